@@ -17,6 +17,9 @@ RULE = ("cases = (HxW, J, absent-level mask, absent lowpass, kind of placeholder
 
 
 def run(rep):
+    if rep.tier == "thorough":
+        from .. import proofs
+        proofs.attach(rep, "DTCWT1Proofs")      # TLAPS: IfiltPosAll - colifilt reads the reference's positions, all even m
     fnd = Findings()
     res1, tab = dtlib.run_dt1(rep, rep.tier)
     dtchecks.one_dim_replay(rep, fnd, tab, "C11", kinds=("colifilt",))
